@@ -21,7 +21,13 @@ func Stage[From any, To any](ctx context.Context, in <-chan From, f func(From) T
 			case <-ctx.Done():
 				return
 			default:
-				out <- f(v)
+			}
+			// The send must not outlive the context: the reader (e.g. FanIn) stops reading
+			// when ctx is done, and a plain send would then block this goroutine for ever.
+			select {
+			case <-ctx.Done():
+				return
+			case out <- f(v):
 			}
 		}
 	}()
